@@ -10,6 +10,9 @@ A *case* is JSON: {"cfg": {...}, "cmds": [cmd, ...]} with
           ["next", value name]      subject.on_next(val(name))
           ["error", tag]            subject.on_error(Tagged(tag))
           ["completed"]             subject.on_completed()
+          ["fail", tag]             subject.fail(Tagged(tag)): the public Observer.fail, which terminates a live subject with
+                                    that error without going through on_error(); on a terminated or disposed subject it has
+                                    no effect (its return value, and whether it raises after dispose, are not judged)
           ["dispose"]               subject.dispose()
           ["adv", dt]               (C22 only; ignored elsewhere) drain the virtual-time scheduler, then advance dt ticks
     behaviour {"k": "plain"} | {"k": "unsub_self", "at": k} | {"k": "unsub_other", "at": k, "who": j}
@@ -285,6 +288,8 @@ class Model:
             self.flags.add("sub-after-next")
         if self.terminal is not None:
             self.flags.add("late-sub-after-" + ("error" if self.terminal[0] == "E" else "completed"))
+            if "terminated-by-fail" in self.flags:
+                self.flags.add("late-sub-after-fail")
             if self.kind == "replay":
                 o.pending = self.retained() + [self.terminal]
             elif self.kind == "async" and self.terminal[0] == "C" and self.has_value:
@@ -632,6 +637,14 @@ def run_history(kind, case, check_observers_state=False):
         elif op == "error":
             got = _call(subj.on_error, make_error(cmd[1]))
             exp = m.cmd_terminal(["E", ["exc", cmd[1]]])
+        elif op == "fail":
+            got = _call(subj.fail, make_error(cmd[1]))
+            if m.disposed or m.terminal is not None:
+                m.flags.add("fail-no-effect")
+                exp = got if got == "disposed" and m.disposed else None  # no effect; raising after dispose is allowed too
+            else:
+                m.flags.add("terminated-by-fail")
+                exp = m.cmd_terminal(["E", ["exc", cmd[1]]])
         elif op == "completed":
             got = _call(subj.on_completed)
             exp = m.cmd_terminal(["C"])
@@ -760,11 +773,12 @@ _UNSUB = st.builds(lambda i: ["unsub", i], st.integers(0, 7))
 _NEXT = st.builds(lambda v: ["next", v], st.sampled_from(NAMES))
 _ERROR = st.builds(lambda t: ["error", t], st.sampled_from(["e1", "e2"]))
 _COMPLETED = st.just(["completed"])
+_FAIL = st.builds(lambda t: ["fail", t], st.sampled_from(["e1", "e2"]))
 _DISPOSE = st.just(["dispose"])
 _ADV = st.builds(lambda d: ["adv", d], st.sampled_from([0, 0, 1, 1, 1, 2, 3, 5]))
 
 
-_BY_OP = {"sub": _SUB, "next": _NEXT, "unsub": _UNSUB, "adv": _ADV, "error": _ERROR, "completed": _COMPLETED, "dispose": _DISPOSE}
+_BY_OP = {"sub": _SUB, "next": _NEXT, "unsub": _UNSUB, "adv": _ADV, "error": _ERROR, "completed": _COMPLETED, "dispose": _DISPOSE, "fail": _FAIL}
 
 
 def commands(kind, active_only=False, falsy_error=False, reentrant=False, raising=False):
@@ -776,7 +790,7 @@ def commands(kind, active_only=False, falsy_error=False, reentrant=False, raisin
         ops = ops + ["adv"] * 6
     ops = ops * 2
     if not active_only:
-        ops = ops + ["error"] * 2 + ["completed"] * (4 if kind == "async" else 2) + ["dispose"]
+        ops = ops + ["error"] * 2 + ["completed"] * (4 if kind == "async" else 2) + ["dispose"] + ["fail"]
         if falsy_error:
             ops = ops + ["falsy"] * 8
     by_op = dict(_BY_OP, falsy=st.just(["error", "falsy"]))
